@@ -12,6 +12,10 @@
 //! case with textually equal operands is also run that way), value classes (-0.0 / NaN / infinities / subnormals grids,
 //! integer limits inside the non-overflowing range, -0.0 against 0.0 in the orderings); every call is evaluated twice.
 //! The operators have no `Result<Array<T>, ArrayError>` receiver impls, so there is no chained form to run.
+//!
+//! Part 2: the compact operand spelling `h<shape>~lo~m~o[~pos=tok;…]` for huge arrays (same integer formula in the Lean driver),
+//! `seq a / b / c` lines (several cases on one thread: hidden state, colliding shapes, the same arguments through every element
+//! type) and an A-B-A re-run of the previous case after every small case.
 use arrharness::*;
 use std::ops::{BitAnd, BitOr, BitXor};
 
@@ -46,7 +50,31 @@ impl Elem for bool {
     fn tok(self) -> String { if self { "1".into() } else { "0".into() } }
 }
 
+/// element `i` of the compact spelling `h<shape>~lo~m~o` (the Lean driver expands it with the same formula)
+fn hval(lo: i64, m: u64, o: u64, i: usize) -> i64 { lo + (((((i as u64 + 1 + o * 7919) * 2654435761) % 4294967296) / 65536) % m) as i64 }
+/// `h<shape>~lo~m~o[~pos=tok;pos=tok…]`
+fn parse_h<T: Elem>(body: &str) -> Option<(Vec<usize>, Vec<T>)> {
+    let f: Vec<&str> = body.split('~').collect();
+    if f.len() < 4 || f.len() > 5 { return None; }
+    let shape = parse_usize_list(f[0]);
+    let (lo, m, o): (i64, u64, u64) = (f[1].parse().ok()?, f[2].parse().ok()?, f[3].parse().ok()?);
+    if m == 0 { return None; }
+    let n: usize = shape.iter().product();
+    // at most m distinct values: parse each once
+    let table: Vec<T> = (0..m as i64).map(|d| T::parse_tok(&(lo + d).to_string())).collect::<Option<Vec<T>>>()?;
+    let mut elems: Vec<T> = (0..n).map(|i| table[(hval(lo, m, o, i) - lo) as usize]).collect();
+    if f.len() == 5 {
+        for e in f[4].split(';') { let (p, v) = e.split_once('=')?; let p: usize = p.parse().ok()?; if p >= n { return None; } elems[p] = T::parse_tok(v)?; }
+    }
+    Some((shape, elems))
+}
+fn shape_count_of(a: &str) -> Option<usize> {
+    if let Some(body) = a.strip_prefix('h') { Some(parse_usize_list(body.split('~').next()?).iter().product()) }
+    else { let (_, e) = a.split_once(':')?; Some(if e == "-" { 0 } else { e.split(',').count() }) }
+}
+
 fn parse_raw<T: Elem>(s: &str) -> Option<(Vec<usize>, Vec<T>)> {
+    if let Some(body) = s.strip_prefix('h') { return parse_h::<T>(body); }
     let (sh, el) = s.split_once(':')?;
     let shape = parse_usize_list(sh);
     let elems = if el == "-" { vec![] } else { el.split(',').map(T::parse_tok).collect::<Option<Vec<T>>>()? };
@@ -287,7 +315,59 @@ fn ex_cmp<T: Elem>(rel: &str, a_s: &str, b_s: &str, same: bool, expected: &str) 
     Some(compare_default(observed, expected))
 }
 
+thread_local! {
+    /// the previous case of this worker thread: (op, args, model answer, what the crate answered)
+    static PREV: std::cell::RefCell<Option<(String, Vec<String>, String, String)>> = const { std::cell::RefCell::new(None) };
+}
+static ABA_RERUNS: std::sync::atomic::AtomicUsize = std::sync::atomic::AtomicUsize::new(0);
+static SEQ_MEMBERS: std::sync::atomic::AtomicUsize = std::sync::atomic::AtomicUsize::new(0);
+
+fn observed_of(v: &Verdict) -> &str { match v { Verdict::Match(o) | Verdict::Open(o) => o, Verdict::Mismatch { observed, .. } => observed } }
+
+/// `seq a / b / c`: the member cases run one after the other on this thread; every member is judged like a case of its own
+fn exec_seq(args: &[&str], expected: &str) -> Option<Verdict> {
+    let members: Vec<&[&str]> = args.split(|t| *t == "/").collect();
+    let answers: Vec<&str> = expected.split(" / ").collect();
+    if members.len() != answers.len() { return None; }
+    let mut obs = vec![];
+    let mut bad: Option<String> = None;
+    for (k, (m, e)) in members.iter().zip(&answers).enumerate() {
+        let v = exec_single(m[0], &m[1..], e)?;
+        SEQ_MEMBERS.fetch_add(1, std::sync::atomic::Ordering::Relaxed);
+        if let Verdict::Mismatch { observed, detail } = &v {
+            if bad.is_none() { bad = Some(format!("member {k} (`{}`) answers `{}`: {detail}", truncate(&m.join(" "), 200), truncate(observed, 300))); }
+        }
+        obs.push(truncate(observed_of(&v), 400));
+    }
+    let observed = obs.join(" / ");
+    Some(match bad { Some(detail) => Verdict::Mismatch { observed, detail }, None => Verdict::Match(observed) })
+}
+
 fn exec(op: &str, args: &[&str], expected: &str) -> Option<Verdict> {
+    if op == "seq" { PREV.with(|p| *p.borrow_mut() = None); return exec_seq(args, expected); }
+    if op == "state_report" {
+        let text = format!("ok report: {} A-B-A re-runs and {} seq members executed so far", ABA_RERUNS.load(std::sync::atomic::Ordering::Relaxed), SEQ_MEMBERS.load(std::sync::atomic::Ordering::Relaxed));
+        return Some(Verdict::Match(text));
+    }
+    let mut v = exec_single(op, args, expected)?;
+    // A-B-A: after this case (B) the previous case (A) is executed again and must answer what it answered before B
+    let prev = PREV.with(|p| p.borrow_mut().take());
+    if let Some((pop, pargs, pexp, ptext)) = prev {
+        let pa: Vec<&str> = pargs.iter().map(String::as_str).collect();
+        if let Some(again) = exec_single(&pop, &pa, &pexp) {
+            ABA_RERUNS.fetch_add(1, std::sync::atomic::Ordering::Relaxed);
+            if observed_of(&again) != ptext && !matches!(v, Verdict::Mismatch { .. }) {
+                v = Verdict::Mismatch { observed: format!("STATE-DIVERGENCE `{pop} {}` executed again after this case gives `{}`", truncate(&pargs.join(" "), 300), truncate(observed_of(&again), 300)),
+                                        detail: format!("before this case it gave `{}`; this case itself agrees with the model (`{}`)", truncate(&ptext, 300), truncate(expected, 200)) };
+            }
+        }
+    }
+    let len: usize = args.iter().map(|a| a.len()).sum();
+    if len <= 1500 { PREV.with(|p| *p.borrow_mut() = Some((op.to_string(), args.iter().map(|s| s.to_string()).collect(), expected.to_string(), observed_of(&v).to_string()))); }
+    Some(v)
+}
+
+fn exec_single(op: &str, args: &[&str], expected: &str) -> Option<Verdict> {
     match op {
         "arr_arr" | "arr_scalar" | "assign_arr" | "assign_scalar" | "assign_vs_plain" | "arr_self" | "assign_self" => {
             let (ty, o, a, b) = (args[0], args[1], args[2], if op.ends_with("_self") { "" } else { args[3] });
@@ -577,8 +657,8 @@ fn robustness(thorough: bool, seed: u64, out: &mut dyn FnMut(String)) {
     // (R1) sizes: lib big_shapes + element counts around 32 / 256 / 1024 / 4096 that are not multiples of the usual block sizes
     let mut big = big_shapes();
     big.extend(vec![vec![31], vec![33], vec![65], vec![129], vec![255], vec![256], vec![257], vec![259], vec![263], vec![5, 7, 9], vec![3, 5, 17], vec![2, 3, 43],
-                    vec![1023], vec![1025], vec![1031], vec![4095], vec![4097], vec![4103], vec![13, 79], vec![3, 1367]]);
-    if thorough { big.extend(vec![vec![511], vec![513], vec![2049], vec![8191], vec![8193], vec![16385], vec![127, 33], vec![9, 9, 9, 9]]); }
+                    vec![1023], vec![1025], vec![1031], vec![4095], vec![4097], vec![4103], vec![13, 79], vec![3, 1367], vec![3, 5, 7, 79]]);
+    if thorough { big.extend(vec![vec![511], vec![513], vec![2049], vec![8191], vec![8193], vec![8195], vec![8199], vec![91, 91], vec![16385], vec![127, 33], vec![9, 9, 9, 9]]); }
     for (k, sh) in big.iter().enumerate() {
         let n = prod(sh);
         if n <= 300 || (thorough && n <= 1100) {
@@ -726,6 +806,188 @@ fn robustness(thorough: bool, seed: u64, out: &mut dyn FnMut(String)) {
     }
 }
 
+
+// ------------------------------------------------------------------ robustness streams, part 2 (hidden state, huge sizes, colliding shapes)
+
+fn harr(shape: &[usize], lo: i64, m: u64, o: u64) -> String { format!("h{}~{lo}~{m}~{o}", show_list(shape)) }
+fn harr_ov(shape: &[usize], lo: i64, m: u64, o: u64, ov: &[(usize, String)]) -> String {
+    if ov.is_empty() { harr(shape, lo, m, o) } else { format!("{}~{}", harr(shape, lo, m, o), ov.iter().map(|(p, t)| format!("{p}={t}")).collect::<Vec<_>>().join(";")) }
+}
+fn cmp_range(ty: &str) -> (i64, u64) { match ty { "bool" => (0, 2), "u8" | "usize" => (0, 4), _ => (-3, 7) } }
+
+/// every array-by-array form on a pair of shapes (equal or not), operands in the compact `h` spelling (values 1..9 for the
+/// arithmetic operators: no overflow, no zero divisor, on every type).  `full` = every operator in every form with the full
+/// value answer; otherwise the forms rotate with `k` (every operator still occurs, in one form each).
+fn forms_h(sa: &[usize], sb: &[usize], ty: &str, bit_ty: &str, cmp_ty: &str, k: usize, full: bool, out: &mut dyn FnMut(String)) {
+    let differ = sa != sb;
+    let (n, m) = (prod(sa), prod(sb));
+    for (j, op) in ARITH_OP.iter().enumerate() {
+        let (a, b) = (harr(sa, 1, 9, (k + j) as u64), harr(sb, 1, 9, (k + j + 1) as u64));
+        if full { out(format!("arr_arr {ty} {op} {a} {b}")); out(format!("assign_arr {ty} {op} {a} {b}")); out(format!("assign_vs_plain {ty} {op} {a} {b}")); }
+        else if differ { out(format!("{} {ty} {op} {a} {b}", ["arr_arr", "assign_arr"][(k + j) % 2])); if j == k % 5 { out(format!("assign_vs_plain {ty} {op} {a} {b}")); } }
+        else {
+            // a huge equal-shaped pair: one operator with the plain value, one with the compound value, two more compound against plain
+            if j == k % 5 { out(format!("arr_arr {ty} {op} {a} {b}")); }
+            if j == (k + 2) % 5 { out(format!("assign_arr {ty} {op} {a} {b}")); }
+            if j == (k + 1) % 5 || j == (k + 3) % 5 { out(format!("assign_vs_plain {ty} {op} {a} {b}")); }
+        }
+    }
+    for (j, op) in BIT_OP.iter().enumerate() {
+        for (t, hi) in [("bool", 2u64), (bit_ty, 100)] {
+            if t == "bool" && hi == 100 { continue; }
+            let (a, b) = (harr(sa, 0, hi, (k + j) as u64), harr(sb, 0, hi, (k + j + 7) as u64));
+            if full { out(format!("bit_arr {t} {op} {a} {b}")); out(format!("bit_assign_arr {t} {op} {a} {b}")); out(format!("bit_assign_vs_plain {t} {op} {a} {b}")); }
+            else if differ { if t == "bool" || j == k % 3 { out(format!("{} {t} {op} {a} {b}", ["bit_arr", "bit_assign_arr"][(k + j) % 2])); } }
+            else {
+                if j == k % 3 && t != "bool" { out(format!("bit_arr {t} {op} {a} {b}")); }
+                if j == (k + 1) % 3 && t == "bool" { out(format!("bit_assign_arr {t} {op} {a} {b}")); }
+                if j == (k + 2) % 3 && t == "bool" { out(format!("bit_assign_vs_plain {t} {op} {a} {b}")); }
+            }
+        }
+    }
+    let (lo, md) = cmp_range(cmp_ty);
+    let o = k as u64 + 3;
+    let a = harr(sa, lo, md, o);
+    let mut others: Vec<String> = vec![];
+    if differ { others.push(harr(sb, lo, md, o)); if full { others.push(harr(sb, lo, md, o + 1)); } }
+    else {
+        others.push(a.clone());
+        if n > 0 {
+            let mut ps = if full { vec![n - 1, n - 1 - (n - 1) % 8, 0, n / 2] } else { vec![n - 1, n - 1 - (n - 1) % 8] };
+            ps.dedup();
+            for p in ps {
+                let v = hval(lo, md, o, p);
+                others.push(harr_ov(sb, lo, md, o, &[(p, (lo + (v - lo + 1) % md as i64).to_string())]));
+                if is_float(cmp_ty) && (full || p == n - 1) { others.push(harr_ov(sb, lo, md, o, &[(p, "nan".into())])); }
+            }
+        }
+        if full { others.push(harr(sb, lo, md, o + 1)); }
+    }
+    let _ = m;
+    for (i, b) in others.iter().enumerate() {
+        if full || (b == &a && !differ) { for rel in RELS { out(format!("cmp {cmp_ty} {rel} {a} {b}")); } }
+        else { for rel in ["eq", "partial_cmp", ["lt", "le", "gt", "ge", "ne"][(k + i) % 5]] { out(format!("cmp {cmp_ty} {rel} {a} {b}")); } }
+        if full && b != &a && !differ { for rel in ["eq", "lt", "partial_cmp"] { out(format!("cmp {cmp_ty} {rel} {b} {a}")); } }
+    }
+    if !differ && n > 0 { for rel in if full { vec!["eq", "le", "partial_cmp"] } else { vec!["partial_cmp"] } { out(format!("cmp_self {cmp_ty} {rel} {a}")); } }
+}
+
+/// groups of shapes with the SAME element count and the SAME rank in which an axis exceeds 65 535 (a shape test on a packed /
+/// narrowed / hashed key confuses them); every ordered pair of different members must be refused by every operator form
+fn wide_axis_groups(thorough: bool) -> Vec<Vec<Vec<usize>>> {
+    let mut g = vec![
+        vec![vec![1, 131072], vec![2, 65536], vec![65536, 2], vec![131072, 1], vec![4, 32768], vec![256, 512]],
+        vec![vec![1, 65537], vec![65537, 1]],
+        vec![vec![1, 1, 1, 65537], vec![1, 65537, 1, 1], vec![65537, 1, 1, 1]],
+        vec![vec![2, 196608], vec![3, 131072]],
+    ];
+    if thorough {
+        g.push(vec![vec![1, 1, 196608], vec![1, 3, 65536], vec![3, 1, 65536], vec![3, 65536, 1], vec![1, 65536, 3], vec![65536, 3, 1], vec![1, 2, 98304]]);
+        g.push(vec![vec![1, 1, 1, 131072], vec![1, 1, 2, 65536], vec![1, 2, 1, 65536], vec![2, 1, 1, 65536], vec![1, 1, 65536, 2]]);
+        g.push(vec![vec![2, 70000], vec![70000, 2], vec![1, 140000], vec![140000, 1]]);
+        g.push(vec![vec![1, 1, 1, 1, 131072], vec![1, 1, 1, 2, 65536], vec![2, 1, 1, 1, 65536]]);
+    } else {
+        g.push(vec![vec![1, 1, 196608], vec![1, 3, 65536], vec![3, 1, 65536], vec![3, 65536, 1]]);
+        g.push(vec![vec![1, 1, 1, 131072], vec![1, 1, 2, 65536], vec![2, 1, 1, 65536]]);
+        g.push(vec![vec![2, 70000], vec![1, 140000]]);
+    }
+    g
+}
+
+/// pairs with the same element count, the same rank and the same polynomial key `h = h*m + dim`
+/// (`m = 65536` is the packing of the axes into 16-bit fields, `m = 256` into bytes)
+fn equal_count_collisions() -> Vec<(Vec<usize>, Vec<usize>)> {
+    let mut v = vec![];
+    for m in [31usize, 33, 37, 131, 257, 256, 65599, 65536] {
+        v.push((vec![2, m], vec![1, 2 * m]));
+        if m < 60000 { v.push((vec![3, 2 * m], vec![2, 3 * m])); v.push((vec![2, m, 1], vec![1, 2 * m, 1])); }
+        v.push((vec![1, 2, m], vec![1, 1, 2 * m]));
+    }
+    v
+}
+
+fn robustness2(thorough: bool, seed: u64, out: &mut dyn FnMut(String)) {
+    // (7) element counts 8 192 .. 393 216: every residue modulo 8 just above 2^13, counts around 2^14 / 2^15 / 2^16 / 2^17, lib
+    //     huge_shapes(); the same shape on both sides, every compound assignment against its plain form
+    let mut shapes7: Vec<Vec<usize>> = (8192..=8200).map(|n| vec![n]).collect();
+    shapes7.extend(vec![vec![3, 5, 7, 79], vec![91, 91], vec![2, 4099], vec![4099, 2], vec![8212], vec![12289], vec![16384], vec![16385], vec![16387], vec![16391],
+                        vec![32773], vec![65536], vec![65537], vec![65543], vec![70003], vec![131073]]);
+    shapes7.extend(huge_shapes().into_iter().filter(|s| thorough || (s != &vec![300, 300] && s != &vec![2, 70000])));
+    if thorough { shapes7.extend(vec![vec![8191], vec![8216], vec![8224], vec![8256], vec![16400], vec![32767], vec![32769], vec![65535], vec![131071], vec![3, 43691], vec![43691, 3], vec![7, 11, 13, 17, 19]]); }
+    for (k, sh) in shapes7.iter().enumerate() {
+        let n = prod(sh);
+        let full = n < 9000 || (thorough && n < 40000);
+        forms_h(sh, sh, ARITH_TY[k % 6], BIT_TY[1 + k % 10], CMP_TY[k % 9], k, full, out);
+        if thorough { forms_h(sh, sh, ARITH_TY[(k + 3) % 6], BIT_TY[1 + (k + 5) % 10], CMP_TY[(k + 4) % 9], k + 1, false, out); }
+    }
+    // (7 / 6) an axis above 65 535: every ordered pair of different shapes with equal element count and equal rank must be refused
+    let mut k = 0usize;
+    for g in wide_axis_groups(thorough) {
+        for sa in &g { for sb in &g {
+            if sa == sb || (sa.iter().all(|&d| d < 65536) && sb.iter().all(|&d| d < 65536)) { continue; }
+            k += 1;
+            forms_h(sa, sb, ARITH_TY[k % 6], BIT_TY[k % 11], CMP_TY[k % 9], k, thorough && prod(sa) < 70000, out);
+        } }
+    }
+    for (sa, sb) in equal_count_collisions() {
+        for (x, y) in [(&sa, &sb), (&sb, &sa)] {
+            k += 1;
+            forms_h(x, y, ARITH_TY[k % 6], BIT_TY[k % 11], CMP_TY[k % 9], k, prod(x) < 3000, out);
+            if thorough { forms_h(x, y, ARITH_TY[(k + 1) % 6], BIT_TY[(k + 1) % 11], CMP_TY[(k + 1) % 9], k + 1, prod(x) < 3000, out); }
+        }
+        // and the accepted calls on either shape directly afterwards
+        if prod(&sa) < 2000 { forms_h(&sa, &sa, ARITH_TY[k % 6], BIT_TY[k % 11], CMP_TY[k % 9], k, true, out); }
+    }
+    // (6) hidden state: shapes that collide under h*m+dim, back to back in both orders on one thread — accepted call on A, refused
+    //     mixed call, accepted call on B, refused mixed call the other way round, A again
+    let forms: [(&str, &str, &str, i64, u64); 8] = [("arr_arr", "i32", "add", 1, 9), ("assign_arr", "i8", "mul", 1, 9), ("bit_arr", "bool", "xor", 0, 2), ("cmp", "f64", "eq", -3, 7),
+        ("assign_arr", "f64", "div", 1, 9), ("bit_assign_arr", "u8", "or", 0, 100), ("cmp", "i64", "partial_cmp", -3, 7), ("arr_arr", "f32", "rem", 1, 9)];
+    let mut pairs = collision_shape_pairs();
+    for (sa, sb) in equal_count_collisions() { if prod(&sa) < 3000 { pairs.push((sa, sb)); } }
+    for (i, (sa, sb)) in pairs.iter().enumerate() {
+        let picks: Vec<usize> = if thorough { (0..8).collect() } else { vec![i % 8, (i + 3) % 8] };
+        for f in picks {
+            let (form, ty, op, lo, md) = forms[f];
+            let c = |x: &Vec<usize>, y: &Vec<usize>, o: u64| format!("{form} {ty} {op} {} {}", harr(x, lo, md, o), harr(y, lo, md, o + 1));
+            out(format!("seq {} / {} / {} / {} / {}", c(sa, sa, 1), c(sa, sb, 2), c(sb, sb, 3), c(sb, sa, 4), c(sa, sa, 1)));
+        }
+    }
+    // (6d) the same arguments through every element type back to back (a cache in a generic function is shared by all instances)
+    for (i, sh) in [vec![3], vec![2, 2], vec![9], vec![4, 5], vec![17], vec![2, 3, 4], vec![300]].iter().enumerate() {
+        let (a, b) = (harr(sh, 1, 9, i as u64), harr(sh, 1, 9, i as u64 + 1));
+        for op in ARITH_OP {
+            for form in ["arr_arr", "assign_arr"] {
+                let members: Vec<String> = ARITH_TY.iter().map(|ty| format!("{form} {ty} {op} {a} {b}")).collect();
+                out(format!("seq {}", members.join(" / ")));
+            }
+            let members: Vec<String> = ARITH_TY.iter().rev().map(|ty| format!("arr_scalar {ty} {op} {a} 3")).collect();
+            out(format!("seq {}", members.join(" / ")));
+        }
+        let (a, b) = (harr(sh, 0, 100, i as u64), harr(sh, 0, 100, i as u64 + 1));
+        for op in BIT_OP {
+            let members: Vec<String> = BIT_TY.iter().filter(|t| **t != "bool").map(|ty| format!("bit_arr {ty} {op} {a} {b}")).collect();
+            out(format!("seq {}", members.join(" / ")));
+        }
+        let (a, b) = (harr(sh, 0, 2, i as u64), harr(sh, 0, 2, i as u64 + 1));
+        for rel in RELS {
+            let members: Vec<String> = CMP_TY.iter().map(|ty| format!("cmp {ty} {rel} {a} {b}")).collect();
+            out(format!("seq {} / {}", members.join(" / "), CMP_TY.iter().map(|ty| format!("cmp_self {ty} {rel} {a}")).collect::<Vec<_>>().join(" / ")));
+        }
+    }
+    // seeded: interleaved accepted / refused calls on random shapes of one element count
+    let mut rng = Rng::new(seed ^ 0x5EED_C20);
+    for i in 0..(if thorough { 400 } else { 60 }) {
+        let s = rng.shape(1, 4, 6);
+        let t = { let p = rng.perm(s.len()); let t: Vec<usize> = p.iter().map(|&j| s[j]).collect(); if t == s { vec![prod(&s)] } else { t } };
+        let (form, ty, op, lo, md) = forms[rng.below(8)];
+        let c = |x: &Vec<usize>, y: &Vec<usize>, o: u64| format!("{form} {ty} {op} {} {}", harr(x, lo, md, o), harr(y, lo, md, o + 1));
+        let mut members = vec![];
+        for _ in 0..(3 + rng.below(4)) { let (x, y) = match rng.below(4) { 0 => (&s, &s), 1 => (&t, &t), 2 => (&s, &t), _ => (&t, &s) }; members.push(c(x, y, (i % 50) as u64)); }
+        out(format!("seq {}", members.join(" / ")));
+    }
+    out("state_report".into());
+}
+
 fn gen(tier: &str, seed: u64, out: &mut dyn FnMut(String)) {
     let thorough = tier == "thorough";
     // (i) corpus: the classic confusions — same element count, different shape
@@ -735,6 +997,9 @@ fn gen(tier: &str, seed: u64, out: &mut dyn FnMut(String)) {
         "cmp i32 eq 4:1,2,3,4 2,2:1,2,3,4",
         "cmp f64 le 2:1,nan 2:1,nan",
         "bit_arr bool xor 2,2:1,0,1,0 4:1,1,0,0",
+        "assign_arr i32 sub h8195~1~9~0 h8195~1~9~1",
+        "cmp i64 eq h1,131072~-3~7~0 h2,65536~-3~7~0",
+        "arr_arr f64 add h2,65536~1~9~0 h1,131072~1~9~1",
     ] { out(l.to_string()); }
 
     // (ii) exhaustive small scope; the values of this part come from a fixed stream, not from the seed
@@ -773,6 +1038,7 @@ fn gen(tier: &str, seed: u64, out: &mut dyn FnMut(String)) {
     } }
 
     robustness(thorough, seed, out);
+    robustness2(thorough, seed, out);
 
     // (iii) seeded random stream beyond the scope: rank <= 5, length <= 6, full-range values
     let mut rng = Rng::new(seed);
@@ -795,11 +1061,12 @@ fn gen(tier: &str, seed: u64, out: &mut dyn FnMut(String)) {
 }
 
 /// non-trivial: the receiver has at least two elements
-fn nontrivial(_op: &str, args: &[&str]) -> bool {
-    args.iter().find(|a| a.contains(':')).map_or(false, |a| a.split_once(':').map_or(false, |(_, e)| e.contains(',')))
+fn nontrivial(op: &str, args: &[&str]) -> bool {
+    if op == "state_report" { return false; }
+    args.iter().find(|a| a.contains(':') || a.starts_with('h')).map_or(false, |a| shape_count_of(a).map_or(false, |n| n >= 2))
 }
 
 fn main() {
     harness_main(Spec { prop: "C20", gen, exec, nontrivial, hang_secs: 20,
-        rule: "exhaustive: every shape of rank<=4 len<=3 (+ zero-length shapes; thorough adds len 4) x {a op b, a op= b, a op s, a op= s, plain-vs-compound} x {add,sub,mul,div,rem} x {i8,i16,i32,i64,f32,f64}, neg, {and,or,xor} x {bool + 10 integer types}, not(bool), {==,!=,<,<=,>,>=,partial_cmp} x 9 types (equal / one position changed / unrelated; all pairs over a 3-letter alphabet incl. NaN on arrays of <=3 elements); every ordered pair of different shapes (all forms when the element counts agree); + seeded random shapes rank<=5 len<=6 with full-range non-overflowing values and special floats. ROBUSTNESS STREAMS: every form on lib big_shapes() and on element counts 31..4103 around 32/256/1024/4096 that are not multiples of 8 (thorough ..16385): all types up to 300 elements (thorough 1100), above that two arithmetic types, bool + one integer type for the bit operators, f64 + one type for the comparisons, rotating; comparisons of long arrays that differ only at the first / middle / last / last-block position (value, NaN, -0.0); lib zero_shapes() in every form and every ordered pair of different zero shapes; ALIASING forms a op a.clone() and a op= a.clone() (arr_self, assign_self, bit_self, bit_assign_self); cmp_self = the SAME object on both sides for ==, !=, <, <=, >, >=, partial_cmp with NaN at the first/middle/last position, all NaN, -0.0, exhaustively over {0,-0.0,1,NaN} on <=3 elements (also every cmp case with textually equal operands is repeated on one object; identity must not change the answer); all pairs over {0,-0.0,1,NaN} on <=2 (thorough 3) elements and over {min,max,other} of i8,u8,i16,i32,i64,usize; the full 21x21 grid of special floats (+-0, +-NaN, +-inf, subnormal, min positive, max, 2^52+1, 2^53+1, 0.1, 3, 10) for all five operators in array, compound, scalar, compound-scalar and aliasing form on f32 and f64; negation of every special with the NaN sign bit compared; all in-range operand pairs over 19 values at the limits of i8,i16,i32,i64 for every operator in all forms; bit operators on the limits of ten integer types; seeded big shapes. Every call is evaluated twice. (The operators have no Result<Array<T>,ArrayError> receiver impls.) Every output position is compared with the native Rust operator bit-exactly. distinct = distinct case lines; non-trivial = receiver has >= 2 elements" });
+        rule: "exhaustive: every shape of rank<=4 len<=3 (+ zero-length shapes; thorough adds len 4) x {a op b, a op= b, a op s, a op= s, plain-vs-compound} x {add,sub,mul,div,rem} x {i8,i16,i32,i64,f32,f64}, neg, {and,or,xor} x {bool + 10 integer types}, not(bool), {==,!=,<,<=,>,>=,partial_cmp} x 9 types (equal / one position changed / unrelated; all pairs over a 3-letter alphabet incl. NaN on arrays of <=3 elements); every ordered pair of different shapes (all forms when the element counts agree); + seeded random shapes rank<=5 len<=6 with full-range non-overflowing values and special floats. ROBUSTNESS STREAMS: every form on lib big_shapes() and on element counts 31..4103 around 32/256/1024/4096 that are not multiples of 8 (thorough ..16385): all types up to 300 elements (thorough 1100), above that two arithmetic types, bool + one integer type for the bit operators, f64 + one type for the comparisons, rotating; comparisons of long arrays that differ only at the first / middle / last / last-block position (value, NaN, -0.0); lib zero_shapes() in every form and every ordered pair of different zero shapes; ALIASING forms a op a.clone() and a op= a.clone() (arr_self, assign_self, bit_self, bit_assign_self); cmp_self = the SAME object on both sides for ==, !=, <, <=, >, >=, partial_cmp with NaN at the first/middle/last position, all NaN, -0.0, exhaustively over {0,-0.0,1,NaN} on <=3 elements (also every cmp case with textually equal operands is repeated on one object; identity must not change the answer); all pairs over {0,-0.0,1,NaN} on <=2 (thorough 3) elements and over {min,max,other} of i8,u8,i16,i32,i64,usize; the full 21x21 grid of special floats (+-0, +-NaN, +-inf, subnormal, min positive, max, 2^52+1, 2^53+1, 0.1, 3, 10) for all five operators in array, compound, scalar, compound-scalar and aliasing form on f32 and f64; negation of every special with the NaN sign bit compared; all in-range operand pairs over 19 values at the limits of i8,i16,i32,i64 for every operator in all forms; bit operators on the limits of ten integer types; seeded big shapes. Every call is evaluated twice. (The operators have no Result<Array<T>,ArrayError> receiver impls.) Every output position is compared with the native Rust operator bit-exactly. PART 2: element counts 8192..8200 (every residue mod 8), 8212, 12289, 16384..16391, 32773, 65536..65543, 70003, 131073, [3,5,7,79], [91,91], [2,4099] and lib huge_shapes (..140 000) in every array-by-array form (all operators in all forms up to 9000 elements, thorough 40 000; above that every operator in one rotating form, compound against plain, bool + one integer type, comparisons equal / last / last-block / NaN), operands in the compact spelling h<shape>~lo~m~o expanded by the same integer formula on both sides; every ordered pair of DIFFERENT shapes with equal element count and equal rank where an axis exceeds 65 535 ([1,131072] / [2,65536] / [65536,2] / [131072,1] ..., ranks 2..4, thorough 5) and every equal-count pair colliding under h*m+dim for m = 31, 33, 37, 131, 256, 257, 65536, 65599, for all five arithmetic operators plain and compound, &,|,^ plain and compound on bool and integers, ==, partial_cmp and one rotating ordering operator (must be refused); hidden state: `seq` lines (several calls on one thread, each judged like its own case) - lib collision_shape_pairs and the equal-count collisions as accepted / refused / accepted / refused reversed / accepted, the same arguments through every element type back to back, seeded interleavings - and an A-B-A re-run of the previous case after EVERY case shorter than 1500 bytes (STATE-DIVERGENCE). distinct = distinct case lines; non-trivial = receiver has >= 2 elements" });
 }
